@@ -331,6 +331,55 @@ async def _(c):
             c.mark('step%d:s' % n)
 
 
+@op('channel_iteration_with_buffered_messages')
+async def _(c):
+    # a slow consumer: several messages (and the close) arrive while it processes the first one
+    ch = Channel()
+
+    async def produce():
+        await ch.put(0)
+        await (time + 0.5)
+        for i in (1, 2, 3):
+            await ch.put(i)
+        await ch.close()
+    async with Scope() as s:
+        s.do(produce())
+        n = 0
+        async for _ in ch:
+            if n:
+                c.mark('step%d:e' % n)
+            n += 1
+            if n == 1:
+                await (time + 1)
+                c.respin(s)
+            c.mark('step%d:s' % n)
+        c.mark('step%d:e' % n)         # the end of the iteration (closed and drained) is a step, too
+
+
+@op('queue_iteration_with_buffered_messages')
+async def _(c):
+    q = Queue()
+
+    async def produce():
+        await q.put(0)
+        await (time + 0.5)
+        for i in (1, 2, 3):
+            await q.put(i)
+        await q.close()
+    async with Scope() as s:
+        s.do(produce())
+        n = 0
+        async for _ in q:
+            if n:
+                c.mark('step%d:e' % n)
+            n += 1
+            if n == 1:
+                await (time + 1)
+                c.respin(s)
+            c.mark('step%d:s' % n)
+        c.mark('step%d:e' % n)
+
+
 async def _guard(cond):
     async with until(cond):
         await usim.eternity
